@@ -19,17 +19,25 @@ B  state graph walked on the real lvs_validator: each world MATERIALISED (real k
    signer) - every pair of (role, algorithm) in quick, every triple in thorough, plus a bad link under every
    algorithm of its signer; in all other graphs the executor draws an assignment per world (the spec's
    transitions do not read W.alg but for the Ed25519 deviation).
+   How a link names its signer (W.alias): the worlds WPin* of the spec put, at every link, the signer's FULL name (digest
+   of the packet served under the plain name / of another retrievable packet of that name / of a packet nobody serves)
+   or its KEY name into the key locator; P2 names the same certificate by its plain name (one certificate, two names,
+   both orders, also in flight together).
+   Key storage (NewValidator's third parameter): default argument, the library's MemoryKeyStorage / EmptyKeyStorage, an
+   application-supplied unbounded / bounded (1, 2 entries) one that may lose its contents at any time (Forget).
+   FreshnessPeriod of the certificate packets (W.fp: positive / 0 / absent): WFresh, and drawn per world elsewhere.
 C  random certificate graphs (up to 8 certificates, arbitrary key locators incl. loops, 3 roots, a random
-   algorithm per key), 4 instances, 10 packets, recorded and judged by TrustChainTrace.
+   algorithm per key, full / key names in key locators, second packets of a certificate name, a FreshnessPeriod class per
+   certificate), 4 instances with a key storage kind each, 10 packets, recorded and judged by TrustChainTrace.
 """
 import json, os
 
 from harness import tlc, graph, tlaval
 from harness.tlaval import seq
 from harness.regkit import Walker, env_labels, fast_dump
-from harness.trustkit import Scenario, KeyPool, FAST, world_keys, alg_map
+from harness.trustkit import Scenario, KeyPool, FAST, world_keys, alg_map, pins_resolvable, AppStorage
 
-ENV = {'NewValidator', 'Validate', 'FetchReply', 'Heal'}
+ENV = {'NewValidator', 'Validate', 'FetchReply', 'Heal', 'Forget'}
 INTERNAL = ['CheckSchema', 'UseAnchor', 'UseCache', 'Fetch', 'VerifySig', 'Verdict']
 ALL_DEVS = ['SharedCache', 'LoopRefetch', 'Ed25519Unsupported']
 INVS = ['TypeOK', 'StackBounded', 'VerdictIffChain', 'InstanceIndependent', 'ConstructorRefuses', 'Terminated', 'NothingBad']
@@ -44,10 +52,11 @@ def tla_set(xs):
     return '{' + ', '.join('"%s"' % x for x in xs) + '}'
 
 
-def consts(insts, maxval, worlds, allowed=(), forced=(), anchors='MCAnchors', maxheal=0, slots=None, same_app=False):
+def consts(insts, maxval, worlds, allowed=(), forced=(), anchors='MCAnchors', maxheal=0, slots=None, same_app=False,
+           stores='MCStoreDefault'):
     return {'Inst': tla_set(insts), 'Slots': tla_set(slots or insts), 'SameApp': 'TRUE' if same_app else 'FALSE',
             'MaxVal': maxval, 'MaxHeal': maxheal, 'Allowed': tla_set(allowed), 'Forced': tla_set(forced),
-            'WorldSet': '<- %s' % worlds, 'AnchorChoice': '<- %s' % anchors}
+            'WorldSet': '<- %s' % worlds, 'AnchorChoice': '<- %s' % anchors, 'StoreChoice': '<- %s' % stores}
 
 
 def proj(st):
@@ -63,6 +72,8 @@ def world_py(w):
             'certs': {k: dict(v) for k, v in dict(w['certs']).items()}, 'pkts': {k: dict(v) for k, v in dict(w['pkts']).items()},
             'alg': dict(w['alg']) if w.get('alg') else {}, 'sch': w['sch'], 'twin': dict(w['twin']) if w.get('twin') else {},
             'replay': dict(w['replay']) if w.get('replay') else {},
+            'alias': {k: dict(v) for k, v in dict(w['alias']).items()} if w.get('alias') else {},
+            'fp': dict(w['fp']) if w.get('fp') else {},
             'covers': {k: sorted(v) for k, v in dict(w['covers']).items()}}
 
 
@@ -88,7 +99,9 @@ class Run:
     def apply(self, act, args):
         sc = self.sc
         if act == 'NewValidator':
-            sc.new_validator(args[0], args[1])
+            sc.new_validator(args[0], args[1], args[2] if len(args) > 2 else 'default')
+        elif act == 'Forget':
+            sc.forget(args[0])
         elif act == 'Validate':
             sc.validate(args[0], args[1])
         elif act == 'FetchReply':
@@ -129,17 +142,30 @@ def draw_algs(rng, keys, algs, p_uniform=0.3):
     return out
 
 
-def walk(ctx, g, w, init, labels, algs, pool, cache, tag, learn=None):
-    """algs: None = the world's own assignment W.alg; a dict = the executor's assignment for this world"""
+FP_DRAW = ['pos'] * 6 + ['zero', 'none']
+
+
+def draw_fp(rng, certs):
+    """a FreshnessPeriod class per certificate packet (TrustChain.tla: no clause reads W.fp)"""
+    return {n: rng.choice(FP_DRAW) for n in sorted(certs)}
+
+
+def walk(ctx, g, w, init, labels, algs, pool, cache, tag, learn=None, fps=None):
+    """algs: None = the world's own assignment W.alg; a dict = the executor's assignment for this world; likewise fps / W.fp"""
     world = world_py(g.state[init]['W'])
     if algs is not None and not world['alg']:
         world['alg'] = dict(algs)
+    if fps is not None and not world['fp']:
+        world['fp'] = dict(fps)
     world['alg'] = {k: world['alg'].get(k, 'p256') for k in world_keys(world)}
     insts = sorted(g.state[init]['inst'])
     slots = sorted(g.state[init]['val'])
     same_app = sorted(g.state[init]['wire']) == ['app']
     run = Run(world, insts, pool, cache, slots=slots, same_app=same_app)
     kt = json.dumps(world['alg'], sort_keys=True)
+    odd = {n: f for n, f in sorted(world['fp'].items()) if f != 'pos'}
+    if odd:
+        kt += ', FreshnessPeriod %s' % json.dumps(odd, sort_keys=True)
     reported = set()
     done = []
     try:
@@ -221,14 +247,13 @@ def stage_b(ctx, name, g, pool, cache, kts, max_paths=None, learn=None):
         if key in seen or not labels:
             continue
         seen.add(key)
-        if kts is None:
-            algs = None
-        else:
-            if init not in drawn:
-                drawn[init] = draw_algs(ctx.rng, world_keys(world_py(g.state[init]['W'])), kts)
-            algs = drawn[init]
+        if init not in drawn:
+            w0 = world_py(g.state[init]['W'])
+            drawn[init] = (None if kts is None else draw_algs(ctx.rng, world_keys(w0), kts),
+                           None if learn is not None else draw_fp(ctx.rng, w0['certs']))
+        algs, fps = drawn[init]
         kt = algs if algs is not None else dict(g.state[init]['W']['alg'] or {})
-        k = walk(ctx, g, w, init, labels, algs, pool, cache, name, learn)
+        k = walk(ctx, g, w, init, labels, algs, pool, cache, name, learn, fps)
         n += 1
         ctx.traces += 1
         ctx.evaluations += k
@@ -337,6 +362,51 @@ def random_world(rng, algs=None):
     covers = {'root': ['root', 'root2'] if sch == 'twin' else ['root'], 'oproot': ['oproot']}
     world = {'schema': rel, 'roots': rts, 'covers': covers, 'twin': twin, 'replay': replay, 'shape': shape, 'certs': certs, 'pkts': pkts,
              'sch': sch}
+    # how a link names its signer (TrustChain.tla: W.alias): the full name of the packet served under the certificate's
+    # name (<s>p), of a packet nobody serves (<s>w), of another packet of that name (<s>y: a certificate of that name for
+    # another key, issued by the same issuer), or the key name (<s>k)
+    alias = {'-': {'base': '-', 'pk': '-', 'kind': 'plain'}}           # (a JSON object TLC reads must not be empty)
+    world['alias'] = alias
+    real = sorted(certs)
+
+    def pin(el, signed_by_twin_ok):
+        s = el['kl']
+        kind = rng.choice(['p', 'p', 'w', 'y', 'ysubst', 'k'] if signed_by_twin_ok else ['p', 'p', 'w', 'ysubst', 'k'])
+        n = s + kind[0]
+        undo = (dict(el), n in alias, n in certs, n in shape)
+        if n not in alias:
+            alias[n] = {'base': s, 'pk': s if kind == 'p' else 'none' if kind == 'k' else n, 'kind': 'key' if kind == 'k' else 'full'}
+            shape[n] = 'kn' if kind == 'k' else shape[s]
+            if kind == 'p':
+                certs[n] = dict(certs[s])
+            elif kind[0] == 'y':
+                root = certs[s]['kl'] == s
+                certs[n] = {'key': 'k' + n, 'kl': n if root else certs[s]['kl'], 'sig': 'k' + n if root else certs[s]['sig'],
+                            'serv': rng.choice(['yes', 'yes', 'yes', 'absent', 'nack'])}
+                if root:
+                    certs[n]['kl'] = s          # "self-signed": names the certificate name it carries itself
+        el['kl'] = n
+        if kind == 'y' and el['sig'] == 'k' + s:
+            el['sig'] = 'k' + n                 # signed with the key of the packet it pins
+        if not pins_resolvable(world):
+            el.clear()
+            el.update(undo[0])
+            if not undo[1]:
+                del alias[n]
+            if not undo[2]:
+                certs.pop(n, None)
+            if not undo[3]:
+                del shape[n]
+    for p in sorted(pkts):
+        if pkts[p]['kl'] in real and rng.random() < 0.22:
+            pin(pkts[p], pkts[p]['sig'] != 'replay' and p != 'P1')
+    for n in real:
+        if n in certs and certs[n]['kl'] in real and certs[n]['kl'] != n and rng.random() < 0.12:
+            pin(certs[n], True)
+    for n, a in alias.items():                   # the full name of the packet served under a name: the same record
+        if a['kind'] == 'full' and a['pk'] == a['base']:
+            certs[n] = dict(certs[a['base']])
+    world['fp'] = draw_fp(rng, [n for n in certs if alias.get(n, {'pk': n})['pk'] == n])
     # every key has its own algorithm: roots, intermediate certificates and packet signers of different types
     world['alg'] = draw_algs(rng, world_keys(world), algs or FAST)
     return world
@@ -345,8 +415,11 @@ def random_world(rng, algs=None):
 SLOTS6 = ['v1', 'v1b', 'v2', 'v2b', 'v3', 'v4']
 
 
+STORES_C = ['default', 'default', 'memory', 'empty', 'app', 'fifo1', 'fifo2']
+
+
 def record(world, rng, pool, same_app=False):
-    """4 instances (on 4 applications, or all on one); v1 and v2 may run two validations at once"""
+    """4 instances (on 4 applications, or all on one), each with a key storage kind; v1 and v2 may run two validations at once"""
     world = dict(world)
     run = Run(world, INSTS4, pool, None, slots=SLOTS6, same_app=same_app)
     sc = run.sc
@@ -354,8 +427,9 @@ def record(world, rng, pool, same_app=False):
     try:
         for v in INSTS4:
             a = rng.choice(['R1', 'R1', 'R2', 'R3', 'R4', 'R5'] + (['R6'] if 'R6' in world['certs'] else []))
-            run.apply('NewValidator', [v, a])
-            ev.append({'a': 'NewValidator', 'v': v, 'x': a})
+            st = rng.choice(STORES_C)
+            run.apply('NewValidator', [v, a, st])
+            ev.append({'a': 'NewValidator', 'v': v, 'x': a, 'st': st})
             ev[-1]['post'] = post_of(run)
         nval = 0
         heals = 0
@@ -367,6 +441,9 @@ def record(world, rng, pool, same_app=False):
             broken = sorted(n for n, c in world['certs'].items() if c['kl'] != n and sc.serv[n] in ('nack', 'timeout', 'absent'))
             if broken and heals < 3 and not sc.dead and not busy and rng.random() < 0.15:
                 choices += ['Heal']
+            full = [v for v in INSTS4 if isinstance(sc.storage.get(v), AppStorage) and sc.storage[v].d and sc.status[v] == 'ok']
+            if full and rng.random() < 0.15:
+                choices += ['Forget']
             if free and nval < 10:
                 choices += ['Validate'] * 2
             if waiting:
@@ -379,6 +456,10 @@ def record(world, rng, pool, same_app=False):
                 run.apply('Heal', [n])
                 heals += 1
                 ev.append({'a': 'Heal', 'x': n})
+            elif a == 'Forget':
+                v = rng.choice(full)
+                run.apply('Forget', [v])
+                ev.append({'a': 'Forget', 'v': v})
             elif a == 'Validate':
                 s = rng.choice(free)
                 p = 'P%d' % rng.randint(1, 10)
@@ -394,6 +475,8 @@ def record(world, rng, pool, same_app=False):
                     # bound of the spec: the lifetime passes only when the world answers none of the waiting validations
                     if any(sc.serv_of(m) not in ('timeout', 'absent') for _, m in waiting):
                         continue
+                if kind == 'yes' and not sc.deliverable(app, n):
+                    continue            # bound of the spec: first the answer to the Interest for the plain name
                 run.apply('FetchReply', [app, n, kind])
                 ev.append({'a': 'FetchReply', 'app': app, 'n': n, 'kind': kind})
             ev[-1]['post'] = post_of(run)
@@ -509,8 +592,23 @@ def stage_a(ctx):
                 ['TypeOK'], ['Terminates'], False, True))
     # key algorithms by role (anchor / intermediate certificate / packet signer): the verdict is that of the chain
     big.append(('key algorithms by role', consts(['v1'], 1, ctx.pick('WAlgQ', 'WAlgT'), anchors='MCAnchorsAlg'), INVS, [], False, False))
+    # how a link names its signer: full names (right / other packet / nobody's packet) and key names at every link
+    big.append(('names of the signer, depth<=3, 1 validation', consts(INSTS2, 1, 'WPin3'), INVS, [], False, True))
+    big.append(('names of the signer, depth<=%d, 2 validations' % ctx.pick(2, 3), consts(INSTS2, 2, ctx.pick('WPin2', 'WPin3'), anchors='MCAnchorsGood'),
+                INVS, [], False, True))
+    big.append(('one certificate under two names in flight together', consts(['v1'], 2, ctx.pick('WPinO', 'WPin2'), anchors='MCAnchorsGood',
+                                                                           slots=['v1', 'v1b']), INVS, [], False, False))
+    # key storages: the library's and the application's (bounded, forgetting); the verdict does not depend on them
+    big.append(('key storages, %d validations' % ctx.pick(2, 3), consts(['v1'], ctx.pick(2, 3), 'WStore', anchors='MCAnchorsGood',
+                                                                       stores=ctx.pick('MCStoreQ', 'MCStoreT')), INVS, [], True, False))
+    if not ctx.quick:
+        big.append(('key storages, two instances, 2 validations', consts(INSTS2, 2, 'WStore', anchors='MCAnchorsGood', stores='MCStoreQ'), INVS, [], False, True))
+        big.append(('liveness key storages / names of the signer', consts(['v1'], 2, 'WStorePin', anchors='MCAnchorsGood', stores='MCStoreQ'),
+                    ['TypeOK'], ['Terminates'], False, True))
+    # FreshnessPeriod of the certificates on the way
+    big.append(('FreshnessPeriod of certificates', consts(['v1'], 2, 'WFresh', anchors='MCAnchorsGood'), INVS, [], False, False))
     # the declarative ChainExists equals the walk on every world (no instances: initial states only)
-    big.append(('ChainDefsAgree', consts([], 0, 'W4'), ['ChainDefsAgree'], [], False, False))
+    big.append(('ChainDefsAgree', consts([], 0, 'WAll4'), ['ChainDefsAgree'], [], False, False))
     jobs = []
     for name, cs, invs, props, cov, heavy in big:
         cfgp = os.path.join(tlc.BUILD, 'TrustChain_a_%s_%s.cfg' % (name.replace('<=', '').replace(', ', '_').replace(' ', '_'), ctx.tier))
@@ -528,18 +626,25 @@ def stage_a(ctx):
             ctx.violation('C14/spec/%s' % r.violated, 'TLC: %s violated in TrustChain (%s, correct design)' % (r.violated, name),
                           {'trace': r.errtrace})
         if cov:
-            # Heal is enabled only in the healing configuration (MaxHeal > 0); every other action must occur in each
-            for a in (['Heal'] if name.startswith('healing') else INTERNAL + sorted(ENV - {'Heal'})):
+            # Heal is enabled only in the healing configuration (MaxHeal > 0), Forget only with an application's key
+            # storage; every other action must occur in each
+            for a in (['Heal'] if name.startswith('healing') else ['Forget'] if name.startswith('key storages') else
+                      INTERNAL + sorted(ENV - {'Heal', 'Forget'})):
                 if r.ok and r.coverage.get(a, (0, 0))[1] == 0:
                     raise tlc.MachineryError('vacuous: action %s never taken' % a)
     small = []
     for wname in ('W_AcceptDeep', 'W_CacheHit', 'W_Refused', 'W_RejectOtherAnchor', 'W_TwoInFlight', 'W_HealedAccept',
-                  'W_TwoRootsAccept', 'W_TwoRootsRefuse', 'W_SameInstanceTwice', 'W_AcceptMixedAlgs', 'W_RejectBigKeyLink'):
+                  'W_TwoRootsAccept', 'W_TwoRootsRefuse', 'W_SameInstanceTwice', 'W_AcceptMixedAlgs', 'W_RejectBigKeyLink',
+                  'W_PinAccept', 'W_PinTwinAccept', 'W_PinBoth', 'W_Refetch', 'W_Evicted', 'W_Forgot'):
         wp = os.path.join(tlc.BUILD, 'TrustChain_w_%s.cfg' % wname)
         tlc.write_cfg(wp, constants=consts(INSTS2, 2, 'WHeal', anchors='MCAnchorsGood', maxheal=1) if wname == 'W_HealedAccept' else
                       consts(INSTS2, 1, 'W2R', anchors='MCAnchors2') if wname.startswith('W_TwoRoots') else
                       consts(['v1'], 2, 'WClean', anchors='MCAnchorsGood', slots=['v1', 'v1b']) if wname == 'W_SameInstanceTwice' else
                       consts(['v1'], 1, 'WAlgQ', anchors='MCAnchorsAlg') if wname in ('W_AcceptMixedAlgs', 'W_RejectBigKeyLink') else
+                      consts(['v1'], 1, 'WPin2', anchors='MCAnchorsGood') if wname in ('W_PinAccept', 'W_PinTwinAccept') else
+                      consts(['v1'], 2, 'WPinO', anchors='MCAnchorsGood', slots=['v1', 'v1b']) if wname == 'W_PinBoth' else
+                      consts(['v1'], 3 if wname == 'W_Evicted' else 2, 'WStore', anchors='MCAnchorsGood', stores='MCStoreQ')
+                      if wname in ('W_Refetch', 'W_Evicted', 'W_Forgot') else
                       consts(INSTS2, 2, 'W3'),
                       invariants=[wname])
         small.append(('witness', wname, wp))
@@ -629,7 +734,17 @@ def run(ctx):
             ('overlap', consts(['v1'], 2, 'WOrd', unk, has, anchors='MCAnchorsGood', slots=['v1', 'v1b']), kts, ctx.pick(150, 4000)),
             # two validator instances (anchors RA / RB) built on ONE application
             ('oneapp', consts(INSTS2, 2, 'WOrd', unk, has, anchors='MCAnchorsGood', same_app=True), kts, ctx.pick(150, 4000)),
-            ('ed25519', consts(INSTS2, 2, 'WEd', unk, has, anchors='MCAnchorsGood'), None, ctx.pick(30, 400))], pool, cache)
+            ('ed25519', consts(INSTS2, 2, 'WEd', unk, has, anchors='MCAnchorsGood'), None, ctx.pick(30, 400)),
+            # how a link names its signer: the full name of the certificate packet (right digest / another packet of that name
+            # / a packet nobody serves) or the key name, at every link; a second packet that names the certificate plainly
+            ('names', consts(['v1'], 2, ctx.pick('WPin2', 'WPin3'), unk, has, anchors='MCAnchorsGood'), kts, ctx.pick(None, 6000)),
+            ('namelinks', consts(INSTS2, 1, 'WPin3', unk, has), kts, ctx.pick(60, 3000)),
+            ('names-inflight', consts(['v1'], 2, ctx.pick('WPinO', 'WPin2'), unk, has, anchors='MCAnchorsGood', slots=['v1', 'v1b']), kts, ctx.pick(50, 3000)),
+            # key storages (the library's MemoryKeyStorage / EmptyKeyStorage, the application's unbounded / bounded one, Forget)
+            ('storage', consts(['v1'], ctx.pick(2, 3), 'WStore', unk, has, anchors='MCAnchorsGood', stores=ctx.pick('MCStoreQ', 'MCStoreT')), kts,
+             ctx.pick(150, 6000)),
+            # FreshnessPeriod of the certificates on the way (fetched with MustBeFresh)
+            ('fresh', consts(['v1'], 2, 'WFresh', unk, has, anchors='MCAnchorsGood'), kts, ctx.pick(60, 2000))], pool, cache)
         ctx.note('stage B wall %.0fs (incl. learning)' % (time.time() - t1))
     t2 = time.time()
     if 'C' in ctx.stages:
@@ -680,6 +795,12 @@ def replay(ctx, path):
     if obj.get('kind') == 'trace':
         if not obj['rec']['world'].get('alg'):
             obj['rec']['world']['alg'] = alg_map(obj['rec']['world'])       # recorded before keys had algorithms of their own
+        wj = obj['rec']['world']                # recorded before key locators had full names / storages had kinds
+        wj.setdefault('alias', {'-': {'base': '-', 'pk': '-', 'kind': 'plain'}})
+        wj.setdefault('fp', {n: 'pos' for n in wj['certs']})
+        for e in obj['rec']['ev']:
+            if e['a'] == 'NewValidator':
+                e.setdefault('st', 'default')
         rej = judge(ctx, [obj['rec']], 'replay', ([], ALL_DEVS))
         for v in ctx.violations:
             print(v['sig'], '-', v['what'][:400])
